@@ -80,6 +80,16 @@ def escape_rule(
                     exception=exc,
                     entry=label,
                 )
+    # obligations discharged by an enclosing handler (converted or absorbed before they can escape)
+    done = getattr(eea, "_caught_reported", set())
+    fresh = [(k, v) for k, v in eea.caught_log.items() if k not in done]
+    for (exc, site), how in sorted(fresh, key=lambda kv: (kv[0][1].loc(), kv[0][0])):
+        done.add((exc, site))
+        chk.ok(rule, f"{site.key()}::{short(exc)}::handled", f"{short(exc)} from `{site.text[:60]}` is caught by {how}", site.loc(), sample=False)
+    eea._caught_reported = done
+    hs = [s_ for s_ in chk.samples if s_.get("rule") == rule + "/handled"]
+    for (exc, site), how in sorted(fresh, key=lambda kv: (kv[0][1].loc(), kv[0][0]))[: max(0, 4 - len(hs))]:
+        chk.samples.append({"rule": rule + "/handled", "construct": f"{short(exc)} at {site.loc()} `{site.text[:70]}`", "verdict": "discharged", "by": how})
     eea.check_complete()
     st = eea.stats()
     chk.notes.setdefault("eea", {})[rule] = st
